@@ -87,9 +87,10 @@ class ReindentFilter:
         tidx, token = tlist.token_next_by(t=ttypes)
         while token:
             pidx, prev_ = tlist.token_prev(tidx, skip_ws=False)
-            if prev_ and prev_.is_whitespace:
+            while prev_ and prev_.is_whitespace:
                 del tlist.tokens[pidx]
                 tidx -= 1
+                pidx, prev_ = tlist.token_prev(tidx, skip_ws=False)
             # only break if it's not the first token
             if prev_:
                 tlist.insert_before(tidx, self.nl())
@@ -117,8 +118,12 @@ class ReindentFilter:
         if first is None:
             return
 
+        # a subquery starts on a new line unless the statement starts with it
+        has_text_before = ''.join(
+            map(str, self._flatten_up_to_token(first))).strip() != ''
         with indent(self, 1 if is_dml_dll else 0):
-            tlist.tokens.insert(0, self.nl()) if is_dml_dll else None
+            if is_dml_dll and has_text_before:
+                tlist.tokens.insert(0, self.nl())
             with offset(self, self._get_offset(first) + 1):
                 self._process_default(tlist, not is_dml_dll)
 
